@@ -88,7 +88,9 @@ check("C11",
       "oversize claims (limit+1 .. 2^448-1) under size-limited tasters are trickled in 1..4096-byte chunks on the real Banana and buffer length / "
       "skip count are compared with the model after every chunk. Direct oracle with the REAL constraint classes (ByteString, Integer, Number, "
       "Unicode, ListOf, TupleOf, DictOf, SetOf, nested) as root constraint: oversize bodies at leaf positions, high-water mark of len(buffer) against "
-      "65 + the schema bound; negotiation cap at 4096/4097/10000 bytes.",
+      "65 + the schema bound, incl. containers that admit no element (TupleOf(), maxLength=0, maxKeys=0); an ERROR token announcing more than "
+      "SIZE_LIMIT must be refused when its header is complete; index tokens on a REAL Broker root (first opentype string; class name after OPEN "
+      "copyable inside error/answer responses) bounded by the longest opentype / registered Copyable name; negotiation cap at 4096/4099/4100/10000 bytes.",
       "The schema bound of a real constraint tree is computed by the harness from the constraint objects' public attributes; Decimal and VOCAB "
       "expansion carry no size parameter in the schema vocabulary and are outside the bounded fragment.",
       "Coq proof of buffer bounds for a generic tokenizer + per-chunk correspondence + high-water oracle on real constraints", "DESIGN.md 5/C11")
@@ -149,7 +151,8 @@ check("C09",
       "Coq invariant proof over an executable model + translated counting functions + trace validation (vm_compute) on real Brokers", "DESIGN.md 5/C09")
 
 check("C10",
-      "Theorems (Coq, 12, no hypothesis on the exception): FailureSlicer.getStateToCopy is total and every field it sends fits the byte limits "
+      "Theorems (Coq, 15; receiver-side rejections stay inside their top-level object (reportViolation shape fact); f.type rebuilt from the "
+      "transmitted name alone; multi-fault calls and homonymous exception classes in the catalogue). No hypothesis on the exception: FailureSlicer.getStateToCopy is total and every field it sends fits the byte limits "
       "FailureConstraint enforces (type 200, value 1000, traceback 2000, each parent 200) for any class name, any message incl. text UTF-8 cannot "
       "encode, a raising __str__, any traceback, both unsafeTracebacks settings; each field is the escaped text or a whole-character prefix + '..' "
       "and is well-formed UTF-8; truncate (translated from call.py) never exceeds its limit; send side: a Violation at any depth writes ABORT n "
